@@ -18,6 +18,7 @@ import (
 	"io"
 	"os"
 	"runtime"
+	"sort"
 	"strconv"
 	"strings"
 	"sync/atomic"
@@ -65,6 +66,12 @@ type scenario struct {
 	otherDb bool  // the (standalone) target holds a key of its own in another database
 	filter  bool  // a key filter is configured (prefix black list "drop:"): multi-key commands are forwarded restricted to the accepted keys
 	nostart bool  // skip the start-up recovery (16384 slot reads on a cluster): C18 cases only judge admission
+	// cluster target: the slot of unit migU (1-based, 0 = none) is handed over to the other node at the moment the unit's marker
+	// ("marker"), its first business command ("biz") or its EXEC ("exec") arrives at the node - at once (migKind "moved") or as a
+	// migration in progress with all keys moved (migKind "ask", finished when the marker of a later unit arrives)
+	migU    int
+	migAt   string
+	migKind string
 }
 
 // caseLine is one unit enumerated by spec/UnitRoute.tla with the spec's verdict
@@ -485,11 +492,12 @@ func (t *target) close() {
 }
 
 type runner struct {
-	sc      *scenario
-	tg      *target
-	tr      *hx.Trace
-	emitted int
-	nReq    int
+	sc         *scenario
+	tg         *target
+	tr         *hx.Trace
+	emitted    int
+	nReq       int
+	emittedLog int
 }
 
 func (rn *runner) redisCfg() config.RedisConfig {
@@ -545,7 +553,7 @@ func (rn *runner) project(e fakeredis.Entry) map[string]interface{} {
 	case "multi", "exec":
 		ev["t"] = e.Name
 		return ev
-	case "ping", "info", "exists", "hgetall", "hget", "type", "select", "zrangebyscore", "command", "config", "hmget", "cluster", "readonly":
+	case "ping", "info", "exists", "hgetall", "hget", "type", "select", "zrangebyscore", "command", "config", "hmget", "cluster", "readonly", "asking":
 		return nil
 	}
 	key := ""
@@ -629,7 +637,43 @@ func (rn *runner) project(e fakeredis.Entry) map[string]interface{} {
 	return ev
 }
 
+// flushExecuted (scenarios with a slot hand-over): what took effect, not what was requested - a request a node refused
+// (MOVED / ASK, a transaction discarded at EXEC) has not happened.  Executed commands in cluster-wide execution order, one
+// multi ... exec per block.
+func (rn *runner) flushExecuted() {
+	log := rn.tg.log()
+	sort.Slice(log, func(i, j int) bool { return log[i].Seq < log[j].Seq })
+	for i := rn.emittedLog; i < len(log); {
+		e := log[i]
+		e.Conn += e.Node * 100000
+		if e.Blk == 0 {
+			if ev := rn.project(e); ev != nil {
+				rn.tr.Emit(ev)
+			}
+			i++
+			continue
+		}
+		rn.tr.Emit(map[string]interface{}{"ev": "Req", "t": "multi", "c": e.Conn, "sl": -1, "node": e.Node})
+		j := i
+		for ; j < len(log) && log[j].Blk == e.Blk && log[j].Node == e.Node; j++ {
+			x := log[j]
+			x.Conn = e.Conn
+			if ev := rn.project(x); ev != nil {
+				rn.tr.Emit(ev)
+			}
+		}
+		rn.tr.Emit(map[string]interface{}{"ev": "Req", "t": "exec", "c": e.Conn, "sl": -1, "node": e.Node})
+		i = j
+	}
+	rn.emittedLog = len(log)
+	rn.nReq = len(rn.tg.raw())
+}
+
 func (rn *runner) flushRaw() {
+	if rn.sc.migU > 0 {
+		rn.flushExecuted()
+		return
+	}
 	raw := rn.tg.raw()
 	for _, e := range raw[rn.emitted:] {
 		if ev := rn.project(e); ev != nil {
@@ -795,6 +839,72 @@ func (rn *runner) run(crashAfter int) (died bool, cont bool) {
 	return false, true
 }
 
+// installHandOver: see scenario.migU.  The nodes execute one request at a time cluster-wide (Serialize), the hand-over happens
+// between two requests, before the triggering request is looked at.
+func installHandOver(sc *scenario, cs *fakeredis.ClusterState, tr *hx.Trace) {
+	cs.Serialize, cs.ExecRecheck = true, true
+	un := sc.units[sc.migU-1]
+	slot := -1
+	for _, cm := range un.Cmds {
+		if ks := fakeredis.DefaultKeys(cm.name, cm.args); len(ks) > 0 {
+			slot = fakeredis.HashSlot(ks[0])
+			break
+		}
+	}
+	if slot < 0 {
+		return
+	}
+	pfx := []byte(fmt.Sprintf("v%d.", sc.migU-1))
+	var fired, finished atomic.Bool
+	var markerConn atomic.Int64
+	markerConn.Store(-1)
+	endOf := func(args [][]byte) int64 {
+		var m struct {
+			EndOffset int64 `json:"end_offset"`
+		}
+		if len(args) >= 2 && checkpoint.IsBisyncMarkerKey(string(args[0])) && json.Unmarshal(args[1], &m) == nil {
+			return m.EndOffset
+		}
+		return -1
+	}
+	for ni := range cs.Nodes {
+		node := ni
+		cs.Nodes[ni].Gate = func(connID int, name string, args [][]byte) <-chan struct{} {
+			trig := false
+			switch {
+			case name == "set" && endOf(args) == un.E:
+				markerConn.Store(int64(node*100000 + connID))
+				trig = sc.migAt == "marker"
+			case name == "exec":
+				trig = sc.migAt == "exec" && markerConn.Load() == int64(node*100000+connID)
+			case sc.migAt == "biz":
+				for _, a := range args {
+					trig = trig || bytes.HasPrefix(a, pfx)
+				}
+			}
+			if trig && fired.CompareAndSwap(false, true) {
+				cs.Big.Lock()
+				dst := 1 - cs.Owner[slot]
+				cs.BeginMigrate(slot, dst)
+				if sc.migKind == "moved" {
+					cs.FinishMigrate(slot)
+					finished.Store(true)
+				} else {
+					cs.MoveKeys(slot)
+				}
+				cs.Big.Unlock()
+				tr.Emit(map[string]interface{}{"ev": "Mig", "slot": slot, "kind": sc.migKind, "at": sc.migAt, "u": sc.migU})
+			} else if fired.Load() && !finished.Load() && name == "set" && endOf(args) > un.E && finished.CompareAndSwap(false, true) {
+				cs.Big.Lock()
+				cs.FinishMigrate(slot)
+				cs.Big.Unlock()
+				tr.Emit(map[string]interface{}{"ev": "Mig", "slot": slot, "kind": "finish", "at": "later-marker", "u": sc.migU})
+			}
+			return nil
+		}
+	}
+}
+
 func runScenario(sc *scenario, tr *hx.Trace) (recv int, reqs int) {
 	tg := &target{}
 	if sc.cluster {
@@ -824,6 +934,9 @@ func runScenario(sc *scenario, tr *hx.Trace) (recv int, reqs int) {
 			for _, nd := range cs.Nodes {
 				nd.Gate = gate
 			}
+		}
+		if sc.migU > 0 {
+			installHandOver(sc, cs, tr)
 		}
 		for _, nd := range cs.Nodes {
 			nd.Eval = noopScript
@@ -947,6 +1060,7 @@ func main() {
 	cluster := flag.Bool("cluster", false, "two-node cluster target")
 	cases := flag.String("cases", "", "units enumerated by spec/UnitRoute.tla (CASE lines): one scenario per unit, cluster target")
 	refuse := flag.Bool("refuse", false, "append an unroutable unit to every scenario (cluster only, no crashes)")
+	mig := flag.Bool("mig", false, "cluster only, no crashes: the slot of one unit is handed over to the other node while the unit is on its way")
 	flag.BoolVar(&filterOn, "filter", false, "configure a key filter; DEL / UNLINK / MSET mix accepted and rejected keys")
 	flag.Parse()
 	hx.QuietLogs()
@@ -1010,6 +1124,12 @@ func main() {
 			kind = refuseKinds[b%len(refuseKinds)]
 		}
 		base := genScenario(r, 0, *maxUnits, *cluster, kind)
+		if *mig {
+			base.resyncAt, base.stall = 0, 0
+			base.migU = 1 + r.Intn(len(base.units))
+			base.migAt = []string{"marker", "biz", "exec"}[r.Intn(3)]
+			base.migKind = []string{"moved", "ask"}[r.Intn(2)]
+		}
 		id += *shards
 		base.id = id
 		wd.Kick(fmt.Sprintf("base %d %s", b, base.mode))
@@ -1019,6 +1139,10 @@ func main() {
 		modes[base.mode]++
 		if *refuse {
 			kinds[kind]++
+			continue
+		}
+		if *mig {
+			kinds[base.migKind+"@"+base.migAt]++
 			continue
 		}
 		for k := 1 + r.Intn(*stride); k <= total; k += *stride {
